@@ -65,6 +65,11 @@ themes=["caching and precomputation done RIGHT: precompute at construction time 
  "numerics and bookkeeping: compute the character-recipe count with a different exact algorithm (big.Int only; e.g. inclusion-exclusion grouped by union, or dynamic programming over the required sets) and the entropy from it exactly as before (same float32 result up to at most one unit in the last place), count attempts/draws with differently structured loops (same number of attempts, same order of draws), compute SuccessProbability from exact big rationals rounded once at the end (may differ from the old float32 value by at most a few ulp, never across the refusal threshold for recipes whose exact success probability is outside 0.097..0.100)",
  "defensive programming: validate inputs early (errors for exactly the same inputs as before), defensive copies of caller-supplied slices and strings, explicit bounds checks that turn impossible states into errors, named constants instead of literals, recover-free code paths, splitting long functions into helpers, replacing deprecated calls by equivalent ones ONLY where equivalence holds for every Unicode string (if in doubt keep the old call), more precise doc comments",
  "the random-source boundary and separators: obtain random bytes through a tiny internal interface (still crypto/rand.Reader underneath, still 4-byte big-endian words, read in order, exactly as many words as before), restructure NewSFFunction/sfWrap and the seven presets as table-driven code (same alphabets, same entropies, same error behaviour: a failing separator recipe yields the empty separator with entropy 0), restructure WLRecipe.Entropy (it still calls the separator function exactly once per call, before anything else it did before)"]
+themes4=["the attempt limits done right: every call reads MaxTrials and MaxFailRate ONCE at its start into locals (a small unexported struct passed down to the gate and the retry loop), never writes them and never keeps them between calls; hasAcceptableFailRate restructured (e.g. compare logarithms: MaxTrials*log1p(-p) <= log(MaxFailRate)) so that it takes the same decision as before for every recipe whose success probability is not within 0.01% of the threshold; the retry loop makes exactly the same attempts in the same order",
+ "error values and diagnostics done right: every error returned by the library is a FRESH value per call (typed errors such as *LengthError, *FailRateError with the same message text as before, errors.Is/As support, %w wrapping), nothing shared or mutable between calls; diagnostics (duplicate notice, impossible-alphabet and rounding warnings) routed through one small unexported helper writing exactly the same text to the same stream as before",
+ "Password and the token codec restructured: Password.String() built with strings.Builder from the tokens (same bytes for every token sequence incl. invalid UTF-8 and empty tokens), Atoms()/Separators() in one pass, Kind() computed in a single pass over the tokens WITHOUT any memo, MakeIndices/Tokenize with explicit rune iteration (utf8.DecodeRuneInString, every invalid byte one character exactly as strings.Split(s, \"\") does) and precomputed offsets; identical results, errors and index bytes for every input",
+ "word lists and separators restructured: NewWordList as a single ordered pass plus a lookup set with the CORRECT twin rule (drop w when w == strings.Title(v) for some other listed v != w; never use ToLower), defensive copy of the input, preallocated slices, unCapitalizableCount computed after removal; WLRecipe.Generate split into helpers (capitalisation plan AFTER the list/length checks, separator source chosen exactly as before: SeparatorFunc if non-nil else the constant SeparatorChar); the seven presets built from one table"]
+if os.environ.get('THEMESET')=='4': themes=themes4
 for i,t in enumerate(themes,int(os.environ.get('BSTART','1'))):
     if not os.path.isdir(RD+'/B%d'%i): continue
     open(RD+'/B%d.prompt.txt'%i,'w').write(ben.replace('__WT__',RD+'/B%d'%i).replace('__ALL__',allp).replace('__THEME__',t))
